@@ -142,13 +142,11 @@ def judge_srv(meta, ev, st):
             out.append(("start-line-mismatch", "status %d, caller gave %d" % (msg.status, rq["code"])))
         reason = G.unhx(rq["reason"])
         if reason is not None and not _veq(msg.reason, reason):
-            # the reply functions return void: an unusable reason (CR/LF) may be dropped as a whole, but then
-            # none of its lines may appear in the message head
-            head = data[pos - msg.consumed:pos - msg.consumed + msg.head_len]
-            pieces = [x for x in re.split(rb"[\r\n]+", reason) if len(x) >= 3]
-            if (b"\r" in reason or b"\n" in reason) and b"\r" not in msg.reason and b"\n" not in msg.reason \
-                    and not any(x in head for x in pieces):
-                st["reason_dropped"] = st.get("reason_dropped", 0) + 1
+            # The reply functions return void, so an unusable reason (one with CR/LF) can only be dropped or
+            # replaced by the library; that is fine.  What it injects if it is NOT dropped is caught below as
+            # extra/missing header fields, unparseable lines, wrong body or trailing bytes.
+            if b"\r" in reason or b"\n" in reason:
+                st["reason_with_crlf_not_echoed"] = st.get("reason_with_crlf_not_echoed", 0) + 1
             else:
                 out.append(("start-line-mismatch", "reason %r, caller gave %r" % (msg.reason[:80], reason[:80])))
         if reason is None and (b"\r" in msg.reason or b"\n" in msg.reason):
